@@ -304,10 +304,11 @@ def naming_guards(ctx) -> None:
     ctx.rep.check(ok_unknown, rule, f"{f.qualname}/unknown-wells", "names for wells that do not exist raise ValueError", "component names for unknown wells are not rejected with ValueError before the composition is built", where=f.where())
     # names for empty wells
     ok_empty = False
-    for n, test, pol, r in fv.raising_guards():
-        if raise_class(fv, r)[0] != "ValueError" or not pol:
+    for rn_ in fv.cfg.nodes:
+        # every raise statement (not only `if bad: raise`): the conditions that hold where it is reached decide
+        if rn_.kind != "stmt" or not isinstance(rn_.ast, ast.Raise) or raise_class(fv, rn_.ast)[0] != "ValueError":
             continue
-        atoms = fv.atoms_at(fv.node_of(r))
+        atoms = fv.atoms_at(rn_.id)
         empty = any(isinstance(x, ast.Compare) and len(x.ops) == 1 and isinstance(x.ops[0], ast.Eq) and p and isinstance(x.comparators[0], ast.Constant) and x.comparators[0].value == 0
                     and "initial_volumes" in show(x.left) for x, p, _b in atoms)
         named = any(isinstance(x, ast.Compare) and len(x.ops) == 1 and isinstance(x.ops[0], ast.Is) and not p and isinstance(x.comparators[0], ast.Constant) and x.comparators[0].value is None
